@@ -4,6 +4,7 @@
 package main
 
 import (
+	"github.com/bokysan/socketace/v2/internal/streams"
 	"runtime"
 	"github.com/bokysan/socketace/v2/internal/socketace"
 	"fmt"
@@ -459,5 +460,49 @@ func init() {
 			out = append(out, TW("c"), TIn(i), TW("up"), TIn(res[i][0]), TIn(res[i][1]), TW("down"), TIn(res[i][2]), TIn(res[i][3]))
 		}
 		return out
+	})
+}
+
+func init() {
+	opTimeout["c01io"] = 120 * time.Second
+	// c01io <carrier> <len> <closer: app | target>   the client's standard-stream listener (the ProxyCommand use): the application talks
+	//   to the listener over one duplex stream; <len> octets each way, then the closing side closes
+	//  -> connect err | up <received> <firstdiff or -1> down <received> <firstdiff or -1> eof <0/1>
+	register("c01io", func(a []Tok) []Tok {
+		carrier, n, closer := a[0].W, int(a[1].I), a[2].W
+		w, err := newE2E(carrier, nil)
+		if err != nil {
+			return []Tok{TW("setup"), TW("err")}
+		}
+		defer w.close()
+		app, local := memPipe(0, 0)
+		l := &listener.InputOutputListener{InputOutput: streams.NewSafeConnection(local)}
+		l.Name = "svc"
+		l.Address = addr.MustParseAddress("stdin://")
+		if err := l.Start(w.ups, cfgGetter{clientCfg("none", false, true)}); err != nil {
+			return []Tok{TW("setup"), TW("err")}
+		}
+		defer l.Shutdown()
+		tc := w.target.next(20 * time.Second)
+		if tc == nil {
+			return []Tok{TW("connect"), TW("err")}
+		}
+		defer tc.Close()
+		defer app.Close()
+		up, down := patBytes(31, n), patBytes(32, n)
+		go sendAll(app, up, []int{4097, 32768, 100})
+		got := recvN(tc, n, 30*time.Second)
+		out := []Tok{TW("up"), TIn(len(got)), TIn(firstDiff(got, up))}
+		go sendAll(tc, down, []int{65536, 1})
+		got = recvN(app, n, 30*time.Second)
+		out = append(out, TW("down"), TIn(len(got)), TIn(firstDiff(got, down)))
+		from, to := net.Conn(app), net.Conn(tc)
+		if closer == "target" {
+			from, to = tc, app
+		}
+		from.Close()
+		to.SetReadDeadline(time.Now().Add(5 * time.Second))
+		_, err = to.Read(make([]byte, 16))
+		return append(out, TW("eof"), TBool(err == io.EOF))
 	})
 }
